@@ -9,6 +9,7 @@ from __future__ import annotations
 
 import itertools
 import json
+import os
 import pickle
 import sys
 import unicodedata
@@ -1032,7 +1033,10 @@ def main(argv):
     name, tier, k, n = argv[0], argv[1], int(argv[2]), int(argv[3])
     out = Out(k, n)
     CHECKS[name](tier, out)
-    json.dump({"cases": out.cases, "failures": out.failures, "nontrivial": out.nontrivial, "samples": out.samples},
+    import yarl
+    from yarl import _quoting
+    json.dump({"cases": out.cases, "failures": out.failures, "nontrivial": out.nontrivial, "samples": out.samples,
+               "impl": _quoting._Quoter.__module__, "package": os.path.dirname(yarl.__file__)},
               sys.stdout, ensure_ascii=True, default=repr)
 
 
